@@ -1,5 +1,5 @@
 """C05 — servers reject / clients ignore unknown object fields at every nesting depth."""
-from ..facts import ty_adt, tystr, walk_ty, place_local, place_proj, op_place
+from ..facts import ty_adt, tystr, walk_ty, place_local, place_proj, op_place, strip_refs
 from ..cfg import CFG, Tracer, thaw
 from .. import serdewrap as sw
 from .. import dt
@@ -57,6 +57,17 @@ def src_fields(src, acc=None):
                 acc.add(e.get("n") or str(e["f"]))
                 break
     return acc
+
+
+def src_field_chain(src):
+    """every field name on the projection path of a source descriptor (outermost struct first): a value kept in a nested
+    private struct (`self.entry.key`) is described by its leaf"""
+    names = []
+    while src[0] == "field":
+        proj = thaw(src[2]) if not isinstance(src[2], list) else src[2]
+        names = [e.get("n") or str(e["f"]) for e in proj if isinstance(e, dict) and "f" in e] + names
+        src = src[1]
+    return names
 
 
 def src_root(src):
@@ -214,12 +225,17 @@ def run(ctx):
             tb = _inline.expand(c, tb, depth=2, pred=lambda cb: cb.d.get("vis") != "pub" and cb.id.startswith("conjure_serde::de::unknown_fields_behavior"))
         tadt = ctx.F.adt(terminal) or {}
         troles = {}
-        for f_ in (tadt.get("variants") or [{}])[0].get("fields", []):
-            ts_ = tystr(f_["ty"])
-            if "Option" in ts_ and "str" in ts_:
-                troles[f_["name"]] = "key"
-            elif "[&" in ts_ and "str" in ts_:
-                troles[f_["name"]] = "fields"
+        def add_roles(a_, depth=0):
+            for f_ in (a_.get("variants") or [{}])[0].get("fields", []):
+                ts_ = tystr(f_["ty"])
+                inner_ = ctx.F.adt(ty_adt(strip_refs(f_["ty"])) or "")
+                if "Option" in ts_ and "str" in ts_:
+                    troles[f_["name"]] = "key"
+                elif "[&" in ts_ and "str" in ts_:
+                    troles[f_["name"]] = "fields"
+                elif inner_ and inner_.get("local") and inner_["kind"] == "struct" and depth < 2:
+                    add_roles(inner_, depth + 1)      # a private struct grouping the two (`entry: &EntryContext { fields, key }`)
+        add_roles(tadt)
         if tb is None:
             ctx.violation("R5.3", c.name, "terminal|missing", f"{terminal} does not intercept deserialize_ignored_any")
         else:
@@ -240,7 +256,8 @@ def run(ctx):
                 for s_ in ksrc:
                     r = src_root(s_)
                     if r[0] == "arg" and r[1] == 1:
-                        kfields |= src_fields(s_)
+                        ch_ = [n_ for n_ in src_field_chain(s_) if n_ in troles]
+                        kfields |= set(ch_[-1:]) if ch_ else src_fields(s_)
                     elif r[0] == "const":
                         kconst.add(r)
                     elif r[0] == "call" and tb.blocks[r[1]]["t"]["call"]["name"] in ("as_deref", "unwrap_or", "as_ref", "deref", "map", "unwrap_or_else", "as_str", "borrow"):
@@ -249,9 +266,11 @@ def run(ctx):
                         kfields.add("?")
                 ffields = set()
                 for s_ in fsrc:
-                    ffields |= src_fields(s_) if src_root(s_) == ("arg", 1) else {"?"}
+                    ch_ = [n_ for n_ in src_field_chain(s_) if n_ in troles]
+                    ffields |= (set(ch_[-1:]) if ch_ else src_fields(s_)) if src_root(s_) == ("arg", 1) else {"?"}
                 cfg = CFG(tb)
-                errs = [(b_, j, s) for b_, j, s in tb.stmts() if place_local(s["d"]) == 0 and s["r"].get("variant") == "Err"]
+                rets_ = dt.return_aliases(tb)
+                errs = [(b_, j, s) for b_, j, s in tb.stmts() if place_local(s["d"]) in rets_ and not place_proj(s["d"]) and s["r"].get("variant") == "Err"]
                 flows = all(tr.sources(s["r"]["ops"][0]) == {("call", bb)} for _, _, s in errs) and errs
                 kfields = {troles.get(x, x) for x in kfields}
                 ffields = {troles.get(x, x) for x in ffields}
